@@ -14,8 +14,8 @@ class C04 : public Check
 public:
     const char *id() { return "C04"; }
     const char *opName(int k) { return apiOpName(k); }
-    int quickRuns() { return 8000; }
-    int quickSeconds() { return 60; }
+    int quickRuns() { return 30000; }
+    int quickSeconds() { return 90; }
     int thoroughSeconds() { return 900; }
     int cpuBudgetSec() { return 20; }
     const char *rule()
